@@ -117,6 +117,22 @@ func (g wfGen) leaf(rt *rapid.T) *LeafSpec {
 	return l
 }
 
+// connActions: the actions connections are made on. The empty action is never connected:
+// no node can report it (C18), and what Connect(n, "", x) should mean is left open by every
+// property (an implementation may normalise it to the default action or reject it).
+func (g wfGen) connActions() []string {
+	var out []string
+	for _, a := range g.Actions {
+		if a != "" {
+			out = append(out, a)
+		}
+	}
+	if len(out) == 0 {
+		out = []string{"default"}
+	}
+	return out
+}
+
 func (g wfGen) gen(rt *rapid.T) WF {
 	var w WF
 	nl := rapid.IntRange(1, max(1, g.MaxLeaves)).Draw(rt, "nleaves")
@@ -149,7 +165,7 @@ func (g wfGen) gen(rt *rapid.T) WF {
 			}
 			fs.Conns = append(fs.Conns, Conn{
 				From:   from,
-				Action: rapid.SampledFrom(g.Actions).Draw(rt, "caction"),
+				Action: rapid.SampledFrom(g.connActions()).Draw(rt, "caction"),
 				To:     rapid.IntRange(-1, avail-1).Draw(rt, "to"),
 			})
 		}
@@ -158,7 +174,7 @@ func (g wfGen) gen(rt *rapid.T) WF {
 			for c := 0; c < nr; c++ {
 				fs.Conns = append(fs.Conns, Conn{
 					From:   rapid.IntRange(0, avail-1).Draw(rt, "rfrom"),
-					Action: rapid.SampledFrom(g.Actions).Draw(rt, "raction"),
+					Action: rapid.SampledFrom(g.connActions()).Draw(rt, "raction"),
 					To:     rapid.IntRange(avail, nl+nf-1).Draw(rt, "rto"), // this flow or a later one
 				})
 			}
